@@ -290,20 +290,11 @@ let json_load medium enc idx pol hex : string =
       | Some cps -> fmt_outcome (load_text_rj t pol cps)
       | None -> json_load_raw8 t pol bytes
   end else begin
-    (* rapidjson::AutoUTFInputStream::DetectType (third party, mirrored): BOM, else the zero-byte pattern of the
-       first four bytes, else UTF-8; nothing is detected in a stream shorter than four bytes *)
-    let a = Array.of_list (List.map int_of_n bytes) in
-    let (det, skip) =
-      if Array.length a < 4 then ("utf8", 0)
-      else if a.(0) = 0 && a.(1) = 0 && a.(2) = 0xFE && a.(3) = 0xFF then ("utf32be", 4)
-      else if a.(0) = 0xFF && a.(1) = 0xFE && a.(2) = 0 && a.(3) = 0 then ("utf32le", 4)
-      else if a.(0) = 0xFE && a.(1) = 0xFF then ("utf16be", 2)
-      else if a.(0) = 0xFF && a.(1) = 0xFE then ("utf16le", 2)
-      else if a.(0) = 0xEF && a.(1) = 0xBB && a.(2) = 0xBF then ("utf8", 3)
-      else begin
-        let pat = (if a.(0) <> 0 then 1 else 0) lor (if a.(1) <> 0 then 2 else 0) lor (if a.(2) <> 0 then 4 else 0) lor (if a.(3) <> 0 then 8 else 0) in
-        ((match pat with 0x08 -> "utf32be" | 0x0A -> "utf16be" | 0x01 -> "utf32le" | 0x05 -> "utf16le" | _ -> "utf8"), 0)
-      end in
+    (* rapidjson::AutoUTFInputStream::DetectType: the extracted rj_detect of coq/JxDetect.v (the function the theorems
+       T_C08_stream_* are about) *)
+    let (dt, skipn_) = rj_detect bytes in
+    let det = (match dt with KUTF8 -> "utf8" | KUTF16LE -> "utf16le" | KUTF16BE -> "utf16be" | KUTF32LE -> "utf32le" | KUTF32BE -> "utf32be") in
+    let skip = int_of_nat skipn_ in
     ignore enc;
     let body = drop skip bytes in
     if det = "utf8" then begin
@@ -325,9 +316,9 @@ let json_load medium enc idx pol hex : string =
          | None -> whole ())
       | None -> whole ()
     end else begin
-      (* code units; a trailing partial unit is read as if padded (EOF gives 0): keep the whole units *)
+      (* code units; a trailing partial unit is read as if padded with zero bytes (Take() at the end of the stream gives 0) *)
       let k = if det = "utf16le" || det = "utf16be" then 2 else 4 in
-      let whole = List.filteri (fun i _ -> i < (List.length body / k) * k) body in
+      let whole = body @ (List.init ((k - List.length body mod k) mod k) (fun _ -> n_of_int 0)) in
       match units_of_bytes (k * 8) (det = "utf16be" || det = "utf32be") whole with
       | None -> "DECODE-ERR"
       | Some units ->
@@ -339,6 +330,13 @@ let json_load medium enc idx pol hex : string =
          | None -> "EXC:ParsingError")
     end
   end
+
+(* m.detect <hex>: the detected type, the bytes consumed, and the text read by rj_read (strict) *)
+let detect_op hex : string =
+  let bytes = if hex = "-" then [] else parse_hexbytes hex in
+  let (dt, k) = rj_detect bytes in
+  let name = (match dt with KUTF8 -> "utf8" | KUTF16LE -> "utf16le" | KUTF16BE -> "utf16be" | KUTF32LE -> "utf32le" | KUTF32BE -> "utf32be") in
+  name ^ " " ^ string_of_int (int_of_nat k) ^ " " ^ (match rj_read bytes with Some cps -> "TEXT " ^ cps_to_utf8_hex cps | None -> "NOTEXT")
 
 let json_parse_op enc hex : string =
   let bytes = if hex = "-" then [] else parse_hexbytes hex in
@@ -530,6 +528,7 @@ let run_case (line : string) : string =
   let n = Array.length t in
   try
     match t.(0), (if n > 1 then t.(1) else "") with
+    | "m.detect", _ when n = 2 -> detect_op t.(1)
     | "m.val", ("json" | "xml") when n = 5 -> val_op t.(1) t.(2) t.(3) t.(4)
     | "m.chk", "json" when n = 8 -> json_chk t.(2) t.(3) t.(4) t.(6) (t.(7))
     | "m.chk", "json" when n = 9 -> json_chk t.(2) t.(3) t.(4) t.(6) (t.(7) ^ " " ^ t.(8))
